@@ -244,10 +244,12 @@ type rewriter struct {
 	mapRng  map[*ast.RangeStmt]bool
 }
 
-var syncMap = map[string]string{"Mutex": "Mutex", "RWMutex": "RWMutex", "Once": "Once", "WaitGroup": "WaitGroup"}
+var syncMap = map[string]string{"Mutex": "Mutex", "RWMutex": "RWMutex", "Once": "Once", "WaitGroup": "WaitGroup", "Cond": "Cond", "NewCond": "NewCond"}
 var timeMap = map[string]string{"Timer": "Timer", "Ticker": "Ticker", "NewTimer": "NewTimer", "NewTicker": "NewTicker",
 	"After": "After", "AfterFunc": "AfterFunc", "Sleep": "Sleep", "Tick": "Tick"}
-var syncForbidden = map[string]bool{"Cond": true, "Map": true, "NewCond": true}
+// sync.Map is left alone: its operations never block, so they are atomic with respect to the
+// simulated scheduler (only the order of Range is not under the seed's control).
+var syncForbidden = map[string]bool{}
 
 func (g *gen) rewriteFile(path, rel string) ([]byte, error) {
 	pi, err := g.load(filepath.Dir(path))
